@@ -6,11 +6,15 @@ command -v java >/dev/null
 test -f /opt/veriftools/tla/tla2tools.jar
 /venv/bin/python -c "import sys; sys.path.insert(0, '/repo'); import cassandra"
 mkdir -p evidence/replays
+cd spec
+CP=/opt/veriftools/tla/tla2tools.jar:/opt/veriftools/tla/CommunityModules-deps.jar
 rc=0
-for f in spec/*.tla; do
-  case "$f" in spec/Trace*) continue;; esac
-  if ! java -cp /opt/veriftools/tla/tla2tools.jar tla2sany.SANY "$f" >/dev/null 2>&1; then
-    echo "SANY failed on $f"; rc=1
+fails=""
+for f in *.tla; do
+  # Trace_* modules read IOEnv.TRACE_FILE at evaluation time only; parsing them is fine too
+  if ! java -cp "$CP" -DTLA-Library=. tla2sany.SANY "$f" >/dev/null 2>&1; then
+    fails="$fails $f"; rc=1
   fi
 done
+[ -z "$fails" ] || echo "SANY failed on:$fails"
 exit $rc
